@@ -18,9 +18,17 @@ EXPLANATION = (
     "handler, and the get_all_* fetchers feed what they fetch to the tree; roots are seeded only from the validated UEB; "
     "(4) _download_and_verify reports (True, sharenum) only after UEB, all hash fetches and every block 0..num_segments-1 "
     "validated with no failure-swallowing link in between, and classifies hash/layout failures as corrupt and an "
-    "unknown version as incompatible (checked before LayoutInvalid); (5) shares enter the verified set only under a "
-    "True verdict, result tuples of the three producers agree with the unpacking in _format_results, only verified "
-    "shares feed the share map, and the non-verifying path is used only without the verify flag; (6) healthy is true "
+    "unknown version as incompatible (checked before LayoutInvalid); (5) the per-server result tuples that Checker.start() "
+    "hands to _format_results are decided on a finite model - the engine's bounded AST interpreter runs start() and whatever "
+    "helpers, callbacks, loops, comprehensions and set algebra it is written with, with already-fired Deferreds, three servers "
+    "(one offering one share per verdict that the return statements of _download_and_verify can produce, in every rotation; one "
+    "that did not respond; one without shares) and self._get_buckets / _download_and_verify / _format_results answered by the "
+    "model: with the verify flag a share number is in slot 0 (good) exactly when its own verdict is (True, ..) - so neither a "
+    "'corrupt' / 'incompatible' nor a 'disconnect' / 'failure' share, nor one that was never handed to _download_and_verify with its "
+    "own server and bucket, is counted - slots 2 and 3 hold exactly the 'corrupt' and the 'incompatible' shares, slot 1 the "
+    "server, slot 4 the responded flag; without the flag slot 0 is what the server claims; the tuple layout is the one "
+    "_format_results unpacks, only slot 0 feeds the share map, and self._verify is the constructor's verify argument "
+    "(a shape the interpreter cannot follow - try/except, a class-based gatherer - is an ANALYSIS-ERROR, not a pass); (6) healthy is true "
     "exactly under len(sharemap) == N and recoverable exactly under len(sharemap) >= k, these reach CheckResults and "
     "its accessors unchanged, and post-repair results use the union of old and new share maps; (7) the repairer is "
     "given the ciphertext node (verify cap only; the read key never reaches it), re-encodes with k and N of the verify "
@@ -56,7 +64,8 @@ EXPLANATION = (
     "CHKUploader hands the uploadable it was started with (the Repairer) to the Encoder. "
     "Undecided: contents of repaired shares, hash/codec algebra, server behaviour between check and repair, "
     "that CHKUploader leaves existing shares alone (C22).")
-TECHNIQUE = ("static analysis: CFG gate/dominance rules, Deferred-chain order and delivery, who-may-call sweeps, tuple/keyword "
+TECHNIQUE = ("static analysis: CFG gate/dominance rules, Deferred-chain order and delivery, finite-model evaluation of the share "
+             "collection by the engine's bounded AST interpreter, who-may-call sweeps, tuple/keyword "
              "agreement tables, origin of in-place mutated instance state, reaching definitions of a Deferred and the values "
              "its callbacks can be fired with")
 
@@ -626,6 +635,289 @@ def _name_refs(fn, name):
             and isinstance(x.ctx, ast.Load) and _inner(fn, x)]
 
 
+# ------------------------------------------ finite model of the per-server share collection (C45.5)
+from sa.tables import ConstEval, _Return                     # the engine's bounded AST interpreter (nothing is imported or run)
+
+
+class _ModelRaise(NotConstant):
+    """A failure travelling up the interpreted code (Failure.trap that does not match, a failed Deferred that is yielded)."""
+    def __init__(self, failure):
+        NotConstant.__init__(self, "model failure %s" % failure)
+        self.failure = failure
+
+
+class _Opaque:
+    """A value the model knows nothing about except its identity (a server, a bucket, the verify cap)."""
+    def __init__(self, label):
+        self.label = label
+
+    def __repr__(self):
+        return "<%s>" % self.label
+
+    def __bool__(self):
+        raise NotConstant("truth value of %s is not modelled" % self.label)
+
+
+class _MD:
+    """Model Deferred: already fired, with a result or a failure."""
+    def __init__(self, ok, v):
+        self.ok, self.v = ok, v
+
+
+class _MFail:
+    def __init__(self, cls):
+        self.cls = cls
+
+    def __repr__(self):
+        return "Failure(%s)" % self.cls
+
+
+class _Clo:
+    def __init__(self, node, env):
+        self.node, self.env = node, env
+
+
+class _Bound:
+    def __init__(self, name, fi):
+        self.name, self.fi = name, fi
+
+
+class _Formatted:
+    def __init__(self, results):
+        self.results = results
+
+
+_LOG_TAILS = {"log", "msg", "err"}
+_CONTAINERS = (set, frozenset, dict, list, tuple, str, bytes)
+
+
+class ShareCollectionModel(ConstEval):
+    """Interprets Checker.start() - and whatever helpers, nested callbacks, loops, comprehensions and set algebra it uses, in any
+    arrangement - on a finite model: Deferreds have already fired, self._get_buckets / self._download_and_verify /
+    self._format_results are replaced by the model's answers.  Anything the interpreter does not understand is NotConstant
+    (the rule then fails closed)."""
+
+    def __init__(self, idx, cls, verify, servers, answers, verdicts):
+        ConstEval.__init__(self, get_folder(idx), cls.module)
+        self.idx = idx
+        self.cls = cls
+        self.attrs = {"_verify": verify, "_servers": list(servers), "_verifycap": _Opaque("self._verifycap"),
+                      "_add_lease": False}
+        self.answers = answers            # server -> _MD of _get_buckets
+        self.verdicts = verdicts          # sharenum -> tuple _download_and_verify fires with
+        self.asked = []                   # servers asked for their buckets
+        self.verified = []                # (server, sharenum, bucket) handed to _download_and_verify
+        self.producer = {}                # server -> (node of the def, return statement) that built its 5-tuple last
+        self.stack = []
+
+    # -- calls
+    def _bind(self, a, args, kwargs, env, skip):
+        names = [x.arg for x in list(getattr(a, "posonlyargs", [])) + list(a.args)]
+        if a.vararg or a.kwarg:
+            raise NotConstant("varargs in an interpreted function")
+        ndef = len(a.defaults)
+        for i, nm in enumerate(names):
+            if i < skip:
+                continue
+            j = i - skip
+            if j < len(args):
+                env[nm] = args[j]
+            elif nm in kwargs:
+                env[nm] = kwargs[nm]
+            else:
+                di = i - (len(names) - ndef)
+                if di < 0:
+                    raise NotConstant("missing argument %s" % nm)
+                env[nm] = self.expr(a.defaults[di], {})
+        if len(args) > len(names) - skip:
+            raise NotConstant("too many arguments")
+
+    def _run_body(self, node, env):
+        if isinstance(node, ast.Lambda):
+            return self.expr(node.body, env)
+        inline = any((attr_path(d) or "").rsplit(".", 1)[-1] == "inlineCallbacks" for d in node.decorator_list)
+        self.stack.append(node)
+        try:
+            try:
+                self.block(node.body, env)
+                rv = None
+            except _Return as r:
+                rv = r.v
+            except _ModelRaise as e:
+                if not inline:
+                    raise
+                return _MD(False, e.failure)
+        finally:
+            self.stack.pop()
+        if inline:
+            return rv if isinstance(rv, _MD) else _MD(True, rv)
+        return rv
+
+    def apply(self, fv, args, kwargs):
+        self.tick()
+        if len(self.stack) > 40:
+            raise NotConstant("model recursion")
+        if isinstance(fv, _Clo):
+            env = dict(fv.env)
+            self._bind(fv.node.args, args, kwargs, env, 0)
+            return self._run_body(fv.node, env)
+        if isinstance(fv, _Bound):
+            if fv.name == "_get_buckets":
+                if not args or args[0] not in self.answers:
+                    raise NotConstant("_get_buckets asked about %r" % (args[:1],))
+                self.asked.append(args[0])
+                a = self.answers[args[0]]
+                return _MD(a.ok, a.v)
+            if fv.name == "_download_and_verify":
+                if len(args) != 3 or args[1] not in self.verdicts:
+                    raise NotConstant("_download_and_verify%r" % (tuple(args),))
+                self.verified.append(tuple(args))
+                return _MD(True, self.verdicts[args[1]])
+            if fv.name == "_format_results":
+                if len(args) != 1:
+                    raise NotConstant("_format_results%r" % (tuple(args),))
+                return _Formatted(args[0])
+            if fv.name in _LOG_TAILS:
+                return None
+            env = {}
+            self._bind(fv.fi.node.args, args, kwargs, env, 1)
+            return self._run_body(fv.fi.node, env)
+        if callable(fv) and any(fv is b for b in self._BUILTINS.values() if callable(b)):
+            return fv(*args, **kwargs)
+        raise NotConstant("call of %r is not modelled" % (fv,))
+
+    def _fire(self, d, fv, extra, kw):
+        try:
+            v = self.apply(fv, [d.v] + list(extra), kw)
+        except _ModelRaise as e:
+            d.ok, d.v = False, e.failure
+            return
+        if isinstance(v, _MD):
+            d.ok, d.v = v.ok, v.v
+        elif isinstance(v, _MFail):
+            d.ok, d.v = False, v
+        else:
+            d.ok, d.v = True, v
+
+    def _register(self, d, how, args, kwargs):
+        if how == "addCallback" and args:
+            if d.ok:
+                self._fire(d, args[0], args[1:], kwargs)
+        elif how == "addErrback" and args:
+            if not d.ok:
+                self._fire(d, args[0], args[1:], kwargs)
+        elif how == "addBoth" and args:
+            self._fire(d, args[0], args[1:], kwargs)
+        elif how == "addCallbacks":
+            cb = args[0] if args else kwargs.get("callback")
+            eb = args[1] if len(args) > 1 else kwargs.get("errback")
+            if len(args) > 2 or set(kwargs) - {"callback", "errback"}:
+                raise NotConstant("addCallbacks with extra arguments")
+            if d.ok and cb is not None:
+                self._fire(d, cb, [], {})
+            elif not d.ok and eb is not None:
+                self._fire(d, eb, [], {})
+        else:
+            raise NotConstant("Deferred.%s" % how)
+        return d
+
+    def _self_attr(self, name):
+        if name in self.attrs:
+            return self.attrs[name]
+        m = self.cls.lookup(name)
+        if m is not None:
+            return _Bound(name, m)
+        if name in _LOG_TAILS:
+            return _Bound(name, None)
+        raise NotConstant("self.%s is not modelled" % name)
+
+    @staticmethod
+    def _gather(ds):
+        ds = list(ds)
+        if not all(isinstance(x, _MD) for x in ds):
+            raise NotConstant("gatherResults of something else than Deferreds")
+        for x in ds:
+            if not x.ok:
+                return _MD(False, x.v)
+        return _MD(True, [x.v for x in ds])
+
+    # -- statements / expressions the engine's interpreter does not have
+    def stmt(self, st, env):
+        if isinstance(st, (ast.FunctionDef,)):
+            self.tick()
+            env[st.name] = _Clo(st, env)
+            return
+        if isinstance(st, ast.Return) and st.value is not None:
+            self.tick()
+            v = self.expr(st.value, env)
+            if isinstance(v, tuple) and len(v) == 5 and isinstance(v[1], _Opaque) and self.stack:
+                self.producer[v[1]] = (self.stack[-1], st)
+            raise _Return(v)
+        return ConstEval.stmt(self, st, env)
+
+    def _expr(self, e, env):
+        if isinstance(e, ast.Lambda):
+            return _Clo(e, env)
+        if isinstance(e, ast.Yield):
+            v = self.expr(e.value, env) if e.value is not None else None
+            if isinstance(v, _MD):
+                if not v.ok:
+                    raise _ModelRaise(v.v)
+                return v.v
+            return v
+        if isinstance(e, ast.Attribute):
+            if isinstance(e.value, ast.Name) and e.value.id == "self" and "self" not in env:
+                return self._self_attr(e.attr)
+            raise NotConstant("attribute %s is not modelled" % ast.unparse(e))
+        if isinstance(e, ast.Call):
+            f = e.func
+            if isinstance(f, ast.Attribute):
+                base_is_module = isinstance(f.value, ast.Name) and f.value.id not in env and f.value.id != "self"
+                if base_is_module and f.attr in _LOG_TAILS:
+                    return None
+            args = [self.expr(a, env) for a in e.args]
+            if any(isinstance(a, ast.Starred) for a in e.args) or any(k.arg is None for k in e.keywords):
+                raise NotConstant("star arguments")
+            kwargs = {k.arg: self.expr(k.value, env) for k in e.keywords}
+            lib = f.attr if isinstance(f, ast.Attribute) and base_is_module else \
+                (f.id if isinstance(f, ast.Name) and f.id not in env else None)
+            if lib == "succeed" and len(args) == 1:
+                return _MD(True, args[0])
+            if lib == "gatherResults" and args:
+                return self._gather(args[0])
+            if lib == "DeferredList" and args:
+                ds = list(args[0])
+                return _MD(True, [(x.ok, x.v) for x in ds])
+            if isinstance(f, ast.Name):
+                if f.id in env:
+                    return self.apply(env[f.id], args, kwargs)
+                if f.id in self._BUILTINS:
+                    return self._BUILTINS[f.id](*args, **kwargs)
+                raise NotConstant("call of %s is not modelled" % f.id)
+            if isinstance(f, ast.Attribute):
+                if isinstance(f.value, ast.Name) and f.value.id == "self" and "self" not in env:
+                    return self.apply(self._self_attr(f.attr), args, kwargs)
+                if base_is_module:
+                    raise NotConstant("call of %s is not modelled" % ast.unparse(f))
+                recv = self.expr(f.value, env)
+                if isinstance(recv, _MD):
+                    return self._register(recv, f.attr, args, kwargs)
+                if isinstance(recv, _MFail) and f.attr in ("trap", "check"):
+                    names = {(attr_path(a) or "?").rsplit(".", 1)[-1] for a in e.args}
+                    if recv.cls in names:
+                        return recv.cls
+                    if f.attr == "trap":
+                        raise _ModelRaise(recv)
+                    return None
+                if isinstance(recv, _Opaque):
+                    return _Opaque("%s.%s()" % (recv.label, f.attr))
+                if isinstance(recv, _CONTAINERS) and not f.attr.startswith("_"):
+                    return getattr(recv, f.attr)(*args, **kwargs)
+                raise NotConstant("call %s is not modelled" % ast.unparse(f))
+            return self.apply(self.expr(f, env), args, kwargs)
+        return ConstEval._expr(self, e, env)
+
+
 def run(ctx: Context):
     idx = ctx.idx
 
@@ -1090,86 +1382,153 @@ def run(ctx: Context):
             r.require(bool(rs) and all(raises(want)(n) for n in rs), g, g.loc(), "%s raises something else than %s" % (short(g), want))
 
     # -- 5. collection of verdicts ------------------------------------------
-    with ctx.rule("C45.5", "R3/R5", "collect(): verified only under a True verdict, corrupt / incompatible by label; result "
-                  "tuple layouts of collect, _err, _check_server_shares and the unpacking in _format_results agree; only "
-                  "verified shares feed the share map; no unverified claims when verify is set", expected=7) as r:
-        gbk = idx.func(CHECKER + "._verify_server_shares._got_buckets")
-        col = gbk.nested.get("collect")
-        if col is None:
-            raise AnchorVanished("_got_buckets.collect")
-        ccfg = col.cfg()
-        cnorm = FlowNorm(col)
-        its = ccfg.find(lambda n: n.kind == "iter")
-        if len(its) != 1 or not isinstance(its[0].ast.target, ast.Tuple) or len(its[0].ast.target.elts) != 3:
-            raise AnchorVanished("collect: for succ, sharenum, whynot in results")
-        t_succ, t_num, t_why = [attr_path(e) for e in its[0].ast.target.elts]
-        r.require(attr_path(its[0].ast.iter) == first_positional_params(col)[0], col, col.loc(its[0].ast), "collect iterates %s" % src(col, its[0].ast.iter))
-
-        def fact_is(n, lab, want):
-            return cnorm.edge_fact(n, lab) == want
-        kinds = {}
-        adds = [(n, c) for n in ccfg.nodes for c in node_calls(n) if call_tail(c) in ("add", "append", "update")
-                and isinstance(c.func, ast.Attribute) and attr_path(c.func.value)]
-        if not adds:
-            raise AnchorVanished("collect no longer fills its sets")
-        for (n, c) in adds:
-            recv = attr_path(c.func.value)
-            target = lambda x, _n=n: x is _n
-            under_true = not find_path_avoiding(ccfg, target, gate_edge=lambda a, b: fact_is(a, b, ("truth", t_succ, None)), kill=stores(t_succ))
-            under_false = not find_path_avoiding(ccfg, target, gate_edge=lambda a, b: fact_is(a, b, ("false", t_succ, None)), kill=stores(t_succ))
-            lab_ = None
-            for L in ("corrupt", "incompatible"):
-                if not find_path_avoiding(ccfg, target, gate_edge=lambda a, b, L=L: fact_is(a, b, ("==", repr(L), t_why)), kill=stores(t_why)):
-                    lab_ = L
-            k = "verified" if under_true else (lab_ if (under_false and lab_) else "unguarded")
-            r.site(col, c, "%s <- %s" % (recv, k))
-            r.require(len(c.args) == 1 and attr_path(c.args[0]) == t_num, col, col.loc(c), "%s receives %s" % (recv, src(col, c.args[0] if c.args else c)))
-            if recv in kinds and kinds[recv] != k:
-                k = "mixed"
-            kinds[recv] = k
-        rets = ccfg.find(is_return)
-        outer_vs = idx.func(CHECKER + "._verify_server_shares")
-        srv = first_positional_params(outer_vs)[0]
-        layout_ok = False
-        for n in rets:
-            v = n.ast.value
-            if isinstance(v, ast.Tuple) and len(v.elts) == 5:
-                names = [attr_path(e) for e in v.elts]
-                got = [kinds.get(names[0]), names[1], kinds.get(names[2]), kinds.get(names[3])]
-                layout_ok = got == ["verified", srv, "corrupt", "incompatible"]
-                r.require(layout_ok, col, col.loc(n.ast), "collect returns %s with roles %s; _format_results reads "
-                          "(verified, server, corrupt, incompatible, responded)" % (src(col, v), got))
-            else:
-                r.violation(col, col.loc(n.ast), "collect returns %s" % src(col, v))
-        if not rets:
-            raise AnchorVanished("collect has no return")
-        # the verdicts collected are those of _download_and_verify for this server's buckets
-        dl = [c for c in _calls(gbk, "_download_and_verify")]
-        if len(dl) != 1:
-            raise AnchorVanished("_got_buckets: self._download_and_verify(...)")
-        r.site(gbk, dl[0], "per-share verification")
-        bit = [n for n in gbk.cfg().nodes if n.kind == "iter"]
-        ok = len(bit) == 1 and isinstance(bit[0].ast.target, ast.Tuple) and len(bit[0].ast.target.elts) == 2 \
-            and [attr_path(a) for a in dl[0].args] == [srv] + [attr_path(e) for e in bit[0].ast.target.elts] \
-            and re.match(r"^(list\()?\w+\.items\(\)\)?$", norm_plain(bit[0].ast.iter)) is not None
-        r.require(ok, gbk, gbk.loc(dl[0]), "verification is started as %s" % src(gbk, dl[0]))
-        cregs = [x for x in _regs(gbk) if x.target_name() == "collect"]
-        r.require(len(cregs) == 1 and cregs[0].kind == "cb", gbk, gbk.loc(), "collect is not the callback of the gathered verdicts")
-        # other producers of result tuples
-        er = outer_vs.nested.get("_err")
-        cs_ = idx.func(CHECKER + "._check_server_shares")
-        cur = cs_.nested.get("_curry_empty_corrupted")
-        if er is None or cur is None:
-            raise AnchorVanished("_verify_server_shares._err / _check_server_shares._curry_empty_corrupted")
-        empty = lambda e: isinstance(e, ast.Call) and call_name(e) == "set" and not e.args
-        for g, srvname in ((er, srv), (cur, first_positional_params(cs_)[0])):
-            r.site(g, None, "result tuple")
+    with ctx.rule("C45.5", "R3/R5", "per-server results behind Checker.start(), evaluated on a finite model (one share per verdict "
+                  "_download_and_verify can fire with): with verify set a share is in slot 0 (good) iff its own verdict is True, "
+                  "slots 2 / 3 hold exactly the 'corrupt' / 'incompatible' ones, each verified with its own server and bucket; "
+                  "without verify the claimed shares; layout as _format_results unpacks it; only slot 0 feeds the share map",
+                  expected=7) as r:
+        ck = idx.cls(CHECKER)
+        st = idx.func(CHECKER + ".start")
+        dav = idx.func(CHECKER + "._download_and_verify")
+        for anchor in ("_get_buckets", "_format_results"):
+            idx.func(CHECKER + "." + anchor)
+        # the verdicts _download_and_verify can fire with: every (flag, sharenum, tag) tuple one of its callbacks returns
+        outcomes = []
+        for g in [dav] + [h for h in idx.funcs.values() if h.qual.startswith(dav.qual + ".")]:
+            if isinstance(g.node, ast.Lambda):
+                continue
             for n in g.cfg().find(is_return):
                 v = n.ast.value
-                ok = isinstance(v, ast.Tuple) and len(v.elts) == 5 and attr_path(v.elts[1]) == srvname and empty(v.elts[2]) and empty(v.elts[3])
-                if g is er:
-                    ok = ok and empty(v.elts[0]) and _falsy_const(v.elts[4])
-                r.require(ok, g, g.loc(n.ast), "%s returns %s; expected (shares, server, set(), set(), responded)" % (short(g), src(g, v)))
+                if isinstance(v, ast.Tuple) and len(v.elts) == 3 and isinstance(v.elts[0], ast.Constant) \
+                        and isinstance(v.elts[2], ast.Constant) and attr_path(v.elts[1]) == "sharenum":
+                    o = (v.elts[0].value, v.elts[2].value)
+                    if o not in outcomes:
+                        outcomes.append(o)
+        if not [o for o in outcomes if o[0]] or len([o for o in outcomes if not o[0]]) < 2:
+            raise AnchorVanished("_download_and_verify: the (True, sharenum, None) / (False, sharenum, <why>) verdicts")
+        fmap = {id(f.node): f for f in idx.funcs.values() if f.module is ck.module}
+
+        def blame(model, server):
+            pr = model.producer.get(server)
+            if pr is None:
+                return st, st.loc()
+            node, ret = pr
+            f = fmap.get(id(node))
+            if f is None:
+                return st, st.loc()
+            return f, f.loc(ret)
+
+        def as_set(x, what):
+            if isinstance(x, (set, frozenset, list, tuple, dict)):
+                return set(x)
+            raise AnalysisError("C45.5 model: %s is %r, not a collection of share numbers" % (what, x))
+
+        def run_model(verify, rot):
+            S1, S2, S3 = _Opaque("server-1"), _Opaque("server-2"), _Opaque("server-3")
+            k = len(outcomes)
+            nums = [20 + i for i in range(k)]
+            verd = {nums[i]: (outcomes[(i + rot) % k][0], nums[i], outcomes[(i + rot) % k][1]) for i in range(k)}
+            buckets = {n: _Opaque("bucket-%d" % n) for n in nums}
+            answers = {S1: _MD(True, (dict(buckets), True)), S2: _MD(True, ({}, False)), S3: _MD(True, ({}, True))}
+            m = ShareCollectionModel(idx, ck, verify, [S1, S2, S3], answers, verd)
+            try:
+                out = m.apply(_Bound("start", st), [], {})
+            except NotConstant as e:
+                raise AnalysisError("C45.5: the share collection behind Checker.start() cannot be evaluated on the finite "
+                                    "model (verify=%s): %s" % (verify, e))
+            r.count(m.steps)
+            if not isinstance(out, _MD):
+                raise AnalysisError("C45.5 model: Checker.start() returns %r, not a Deferred" % (out,))
+            if not out.ok:
+                r.violation(st, st.loc(), "with every server answering, Checker.start() fails with %r" % (out.v,))
+                return None
+            if not isinstance(out.v, _Formatted):
+                r.violation(st, st.loc(), "the per-server results are not turned into CheckResults by self._format_results "
+                            "(start() fires with %r)" % (out.v,))
+                return None
+            rows = {}
+            try:
+                res = list(out.v.results)
+            except TypeError:
+                raise AnalysisError("C45.5 model: _format_results is given %r" % (out.v.results,))
+            for t in res:
+                if not (isinstance(t, tuple) and len(t) == 5):
+                    r.violation(st, st.loc(), "_format_results unpacks (verified, server, corrupt, incompatible, responded); "
+                                "it is handed %r" % (t,))
+                    return None
+                if t[1] in rows or t[1] not in answers:
+                    f, loc = blame(m, t[1]) if t[1] in answers else (st, st.loc())
+                    r.violation(f, loc, "result tuple %r: slot 1 is not the server that was asked (once)" % (t,))
+                    return None
+                rows[t[1]] = t
+            for S in (S1, S2, S3):
+                if S not in rows:
+                    r.violation(st, st.loc(), "no result for %r reaches _format_results" % S)
+                    return None
+            return m, (S1, S2, S3), rows, verd, buckets
+
+        def describe(verd, shares):
+            return ", ".join("share %d with verdict %r" % (n, verd[n]) for n in sorted(shares))
+
+        n_rot = len(outcomes)
+        for verify in (True, False):
+            reported = set()
+            for rot in range(n_rot):
+                got = run_model(verify, rot)
+                if got is None:
+                    break
+                m, (S1, S2, S3), rows, verd, buckets = got
+                t = rows[S1]
+                f, loc = blame(m, S1)
+                good, corrupt, incompat = as_set(t[0], "slot 0"), as_set(t[2], "slot 2"), as_set(t[3], "slot 3")
+                checked = {a[1] for a in m.verified}
+                for a in m.verified:
+                    if a != (S1, a[1], buckets.get(a[1])) and "args" not in reported:
+                        reported.add("args")
+                        r.violation(f, loc, "share %r is verified as _download_and_verify%r, not with its own server and bucket" % (a[1], a))
+                if rot == 0:
+                    r.site(f, None, "verify=%s: per-server result of a server offering one share per verdict %s" % (verify, outcomes))
+                if verify or checked:
+                    ok = {n for n in verd if verd[n][0]}
+                    want = (ok, {n for n in verd if not verd[n][0] and verd[n][2] == "corrupt"},
+                            {n for n in verd if not verd[n][0] and verd[n][2] == "incompatible"})
+                    bad = good - ok
+                    if bad and "good" not in reported:
+                        reported.add("good")
+                        r.violation(f, loc, "with verify=%s the good set (slot 0 of the result tuple, which feeds the share map and "
+                                    "the healthy verdict) contains %s: only a share whose own verification fired (True, ..) may "
+                                    "enter it%s" % (verify, describe(verd, bad),
+                                                    "" if bad <= checked else " (shares %s were never verified)" % sorted(bad - checked)))
+                    if (ok - good) and "lost" not in reported:
+                        reported.add("lost")
+                        r.violation(f, loc, "with verify=%s the verified %s is missing from the good set (slot 0)" % (
+                            verify, describe(verd, ok - good)))
+                    for nm, slot, gotset, wantset in (("corrupt", 2, corrupt, want[1]), ("incompatible", 3, incompat, want[2])):
+                        if gotset != wantset and nm not in reported:
+                            reported.add(nm)
+                            r.violation(f, loc, "with verify=%s slot %d of the result tuple (%s shares, as _format_results reads it) "
+                                        "holds %s; expected exactly the shares whose verdict is %r" % (
+                                            verify, slot, nm, describe(verd, gotset) or "nothing", nm))
+                else:
+                    if (good != set(buckets) or corrupt or incompat) and "claimed" not in reported:
+                        reported.add("claimed")
+                        r.violation(f, loc, "without verify the result tuple is (%s, .., %s, %s, ..); expected the shares the server "
+                                    "claims %s and no corrupt / incompatible ones" % (sorted(good), sorted(corrupt), sorted(incompat), sorted(buckets)))
+                if not t[4] and "resp1" not in reported:
+                    reported.add("resp1")
+                    r.violation(f, loc, "a server that answered get_buckets is reported as not responding (slot 4 is %r)" % (t[4],))
+                for S, resp in ((S2, False), (S3, True)):
+                    tt = rows[S]
+                    ff, ll = blame(m, S)
+                    if rot == 0:
+                        r.site(ff, None, "verify=%s: result of a server without shares (responded=%s)" % (verify, resp))
+                    empty = not as_set(tt[0], "slot 0") and not as_set(tt[2], "slot 2") and not as_set(tt[3], "slot 3")
+                    if (not empty or bool(tt[4]) != resp) and ("srv", resp) not in reported:
+                        reported.add(("srv", resp))
+                        r.violation(ff, ll, "verify=%s: a server that offered no shares and whose get_buckets reported responded=%s "
+                                    "yields %r" % (verify, resp, tt))
+                if not verify and not checked:
+                    break                         # nothing depends on the verdicts
         # _format_results unpacking
         fr = idx.func(CHECKER + "._format_results")
         rp = first_positional_params(fr)[0]
@@ -1220,22 +1579,7 @@ def run(ctx: Context):
         r.require(feeds[sm] == {T[0]}, fr, fr.loc(main[0]), "the share map %s is filled from %s, not only from the verified set (element 0)" % (sm, sorted(map(str, feeds[sm]))))
         r.require(feeds[lc] == {T[2]}, fr, fr.loc(main[0]), "corrupt locators are filled from %s, not from element 2" % sorted(map(str, feeds[lc])))
         r.require(feeds[li] == {T[3]}, fr, fr.loc(main[0]), "incompatible locators are filled from %s, not from element 3" % sorted(map(str, feeds[li])))
-        # Checker.start
-        st = idx.func(CHECKER + ".start")
-        scfg = st.cfg()
-        snorm = FlowNorm(st)
-        unv = scfg.find(has_call("_check_server_shares"))
-        ver = scfg.find(has_call("_verify_server_shares"))
-        if not unv or not ver:
-            raise AnchorVanished("Checker.start: both server-share paths")
-        for n in unv:
-            r.site(st, n.ast, "non-verifying path")
-        for (n, w) in find_path_avoiding(scfg, has_call("_check_server_shares"),
-                                         gate_edge=lambda a, b: snorm.edge_fact(a, b) == ("false", "self._verify", None)):
-            r.violation(st, st.loc(n.ast), "with verify=True the checker can take the servers' word for their shares (path: %s)" % w.brief(), w)
         _require_store(r, idx.func(CHECKER + ".__init__"), "self._verify", lambda s: s == "verify", "the verify argument")
-        fregs = [x for x in _regs(st) if x.target_name() == "self._format_results"]
-        r.require(len(fregs) == 1 and fregs[0].kind == "cb", st, st.loc(), "results are not formatted by _format_results")
 
     # -- 6. verdict conditions ----------------------------------------------
     with ctx.rule("C45.6", "R3/R6", "healthy <=> len(sharemap) == N, recoverable <=> len(sharemap) >= k in _format_results; "
